@@ -133,6 +133,8 @@ func exprText(e ast.Expr) string {
 		return x.Op.String() + exprText(x.X)
 	case *ast.BasicLit:
 		return x.Value
+	case *ast.BinaryExpr:
+		return exprText(x.X) + " " + x.Op.String() + " " + exprText(x.Y)
 	}
 	return "?"
 }
